@@ -31,6 +31,7 @@ CONSTANTS MaxBlock,      \* block sizes 1..MaxBlock
           MaxOps,        \* calls in a fill/request schedule
           MaxLen,        \* flow lengths 0..MaxLen of the run driver
           Ms,            \* results per element request
+          Takes,         \* run elements: 0 = reads its whole flow, t = stops after t values
           SplitBufs,     \* sequence of Split bufsizes around the adapter
           Variant
 
@@ -42,12 +43,13 @@ VARIABLES cfg, drv, N,
           pos, rel, out, phase         \* run driver
 vars == <<cfg, drv, N, s, k, outs, h, since, pos, rel, out, phase>>
 
-Cfgs == {[n |-> n, bufIn |-> b, reset |-> r, yor |-> y, kind |-> kd, m |-> m, pv |-> pv] :
+Cfgs == {[n |-> n, bufIn |-> b, reset |-> r, yor |-> y, kind |-> kd, m |-> m, pv |-> pv, take |-> tk] :
            n \in 1..MaxBlock, b \in BOOLEAN, r \in BOOLEAN, y \in BOOLEAN,
-           kd \in {"fc", "fr", "run", "both"}, m \in Ms, pv \in BOOLEAN}
+           kd \in {"fc", "fr", "run", "both"}, m \in Ms, pv \in BOOLEAN, tk \in Takes}
 
 Init == /\ drv \in {"free", "run"} /\ cfg \in Cfgs
         /\ cfg.pv => (cfg.kind = "run" /\ drv = "run")
+        /\ cfg.take > 0 => (cfg.kind = "run" /\ drv = "run" /\ cfg.take < cfg.n)
         /\ drv = "free" => cfg.kind # "run"
         /\ N \in (IF drv = "run" THEN 0..MaxLen ELSE {0})
         /\ s = S0 /\ k = 0 /\ outs = <<>> /\ h = <<>> /\ since = 0
@@ -110,13 +112,13 @@ Request == /\ CanCall
 FreeFixed == UNCHANGED <<s, k, outs, h, since>>
 Blk(a, len) == [j \in 1..len |-> a + j - 1]
 RunBlock == /\ drv = "run" /\ phase = "loop" /\ N - pos >= cfg.n
-            /\ LET blk == Blk(pos, cfg.n) IN
+            /\ LET blk == Taken(cfg, Blk(pos, cfg.n)) IN
                /\ out' = out \o PerValue(cfg, blk) \o Res(cfg, rel \o blk)
                /\ rel' = AfterYield(cfg, rel \o blk)
             /\ pos' = pos + cfg.n
             /\ UNCHANGED <<cfg, drv, N, phase>> /\ FreeFixed
 RunRemainder == /\ drv = "run" /\ phase = "loop" /\ pos < N /\ N - pos < cfg.n
-                /\ LET blk == Blk(pos, N - pos) IN
+                /\ LET blk == Taken(cfg, Blk(pos, N - pos)) IN
                    IF cfg.yor THEN /\ out' = out \o PerValue(cfg, blk) \o Res(cfg, rel \o blk)
                                    /\ rel' = rel \o blk
                    ELSE UNCHANGED <<out, rel>>
@@ -141,7 +143,7 @@ RunIsBlocks == RunDone => out = RunSem(cfg, Iota(N))
 RunPrefix == drv = "run" => IsPrefix(out, RunSem(cfg, Iota(N)))
 EmptyFlowNothing == (RunDone /\ N = 0) => out = <<>>
 RemainderOnlyIfYor == (RunDone /\ ~cfg.yor) => out = RunSem(cfg, Complete(cfg, Iota(N)))
-ResultCount == RunDone =>
+ResultCount == (RunDone /\ cfg.take = 0) =>
    Len(out) = (IF cfg.pv THEN (IF cfg.yor THEN N ELSE Len(Complete(cfg, Iota(N)))) ELSE 0)
               + cfg.m * ((N \div cfg.n) + (IF cfg.yor /\ N % cfg.n # 0 THEN 1 ELSE 0))
 
